@@ -9,9 +9,15 @@ KNOWN_FILE = os.path.join(VERIF, "known_findings.json")
 
 
 def load_known():
-    if not os.path.exists(KNOWN_FILE):
-        return []
-    return json.load(open(KNOWN_FILE))["findings"]
+    out = []
+    if os.path.exists(KNOWN_FILE):
+        out += json.load(open(KNOWN_FILE))["findings"]
+    d = os.path.join(VERIF, "known_findings.d")
+    if os.path.isdir(d):
+        for f in sorted(os.listdir(d)):
+            if f.endswith(".json"):
+                out += json.load(open(os.path.join(d, f)))["findings"]
+    return out
 
 
 def _match(entry, prop, clause, where):
